@@ -795,6 +795,7 @@ fn c20(seed: u64, cases: usize, model_path: &str, thorough: bool) -> serde_json:
     let mut shapes: Vec<(usize, usize)> = vec![]; let cmax = if thorough { 4096 } else { 600 };
     let mut c = 16; while c <= cmax { shapes.push((128, c)); c += if thorough { 8 } else { 8 * (1 + c / 64) }; }
     for _ in 0..cases { shapes.push((128 * r.range(1, 3) as usize, 8 * r.range(2, 40) as usize)); }
+    let mut avx_seen = 0usize;
     for (rows, cols) in shapes {
         let nbytes = rows * cols / 8; let kind = r.below(4);
         let mut buf: Vec<u8> = vec![0u8; nbytes + 3]; let off = r.below(4) as usize;      // unaligned start
@@ -803,6 +804,12 @@ fn c20(seed: u64, cases: usize, model_path: &str, thorough: bool) -> serde_json:
         let want = m.ask(&format!("prim transpose {rows} {}", hex(input))); evals += 1;
         *dist.entry(format!("transpose:{}", ["single-bit", "all-ones", "random", "random"][kind as usize])).or_default() += 1; *dist.entry(format!("transpose:cols%128={}", if cols % 128 == 0 { "0" } else { "nz" })).or_default() += 1;
         distinct.insert(format!("t/{rows}/{cols}/{kind}"));
+        // the model of avx2.rs (subject of C20_transpose_avx; the grouping of squares is a free parameter there, here a seeded digit pattern) against the
+        // real dispatching function, on the smaller shapes (the bit-level model costs a fraction of a second per 128x128 square)
+        avx_seen += 1;
+        if (!thorough && rows * cols <= 128 * 300 && avx_seen % 4 == 1) || (thorough && rows * cols <= 384 * 520) { let pat: String = (0..3).map(|_| char::from(b'0' + r.below(5) as u8)).collect();
+            let want_avx = m.ask(&format!("prim transposeAvx {rows} {pat} {}", hex(input))); evals += 1; *dist.entry("transpose:avx-model".into()).or_default() += 1;
+            if let Ok(g) = std::panic::catch_unwind(|| v::transpose_dispatch(input, rows)) { if format!("transpose {}", hex(&g)) != want_avx { disagreements.push(json!({"what": "AVX2 transpose: model vs real dispatching function", "rows": rows, "cols": cols, "grouping": pat, "input": hex(input)})); } } }
         // the algorithm model of portable.rs (subject of C20_transpose_portable) must agree with the real portable function byte for byte
         let want_alg = m.ask(&format!("prim transposeP {rows} {}", hex(input))); evals += 1;
         if let Ok(g) = std::panic::catch_unwind(|| v::transpose_portable(input, rows)) { if format!("transpose {}", hex(&g)) != want_alg { disagreements.push(json!({"what": "portable transpose: algorithm model vs real function", "rows": rows, "cols": cols, "input": hex(input)})); } }
